@@ -50,3 +50,17 @@ func mDispatch[J iJob[int]](w *worker[int, J]) bool {
 	}
 	return false
 }
+
+// mWorkerLoop: like mWorker but with the REAL event loop goroutine (goEventLoop) instead of harness-driven
+// dispatch steps; used where the property is about the loop's own guard and wake-ups.
+func mWorkerLoop(fn func(j Job[int]), conc, nodes int) (*worker[int, iJob[int]], *queue[int]) {
+	wb := NewWorker(fn, conc).(*workerBinder[int])
+	w := wb.worker
+	q := newQueue(w, queues.NewQueue[iJob[int]]())
+	w.status.Store(running)
+	w.goEventLoop()
+	for i := 0; i < nodes; i++ {
+		w.pool.PushNode(w.initPoolNode())
+	}
+	return w, q
+}
